@@ -65,7 +65,7 @@ def theorems_of(module, namespaces=None):
             continue
         m = re.match(r"\s*(?:@\[[^\]]*\]\s*)?(?:protected\s+)?theorem\s+([\w.']+)", line)
         if m:
-            name = ".".join(stack + [m.group(1)])
+            name = m.group(1)[7:] if m.group(1).startswith("_root_.") else ".".join(stack + [m.group(1)])
             if namespaces is None or name.split(".")[0] in namespaces:
                 out.append(name)
     return out
@@ -95,7 +95,7 @@ P("C01", namespaces=["C01"], level_text="Theorem C01.valid_json: for every RFC 8
   "reader kinds) and the implementation's document is checked against the value the generator knows the text denotes.",
   level_note="Lean kernel; the limits are part of the grammar because a repeated key hides the value it overwrites (kernel-checked counterexample to the naive statement); "
   "floating-point accuracy is C12's concern; 'destination entirely replaced' is checked by the correspondence (prefilled documents)",
-  suites=lambda tier: [S.JsonValidSuite(cfg=DEF), S.JsonValidSuite(cfg=CFG_ALL, n=1500 if tier == "quick" else 100000)],
+  suites=lambda tier: [S.JsonValidSuite(cfg=DEF), S.JsonValidSuite(cfg=CFG_ALL, n=1500 if tier == "quick" else 100000), S.ReuseSuite(cfg=DEF, n=80 if tier == "quick" else 4000)],
   partial=[])
 
 P("C02", module="AJ.Props.C02All", extra=[("AJ.Props.C02", ["C02"]), ("AJ.Props.C02Parse", ["C02"])],
@@ -137,22 +137,32 @@ P("C08", level_text="Theorem: for every raw-free document within the 64-bit/32-b
   suites=lambda tier: [S.MpSerSuite(cfg=DEF), S.SerBufSweep(cfg=DEF, fmt="mp", n=40 if tier == "quick" else 1500)] +
   ([S.MpSerSuite(cfg=G["len4"], n=2000)] if tier == "thorough" else []))
 
-P("C09", level_text="Theorems: every serialized document is accepted and decoded to the value it encodes with exact consumption (any trailing bytes), 0xC1 gives InvalidInput, a non-string "
-  "key gives InvalidInput, the empty input gives EmptyInput, proper prefixes of scalars give IncompleteInput. The model agrees with deserializeMsgPack on values encoded by an independent "
-  "encoder with arbitrary legal widths, on all their proper prefixes and on corruptions; the implementation's document is checked against the encoded value.",
-  level_note="non-minimal encodings and prefixes of containers are covered by the correspondence and the oracle, not by the theorem; USE_DOUBLE=0 is modelled as rounding every stored double to binary32",
+P("C09", module="AJ.Props.C09All", extra=[("AJ.Props.C09", ["C09"]), ("AJ.Props.C09Prefix", ["C09"])],
+  level_text="Theorems: every serialized document is accepted and decoded to the value it encodes with exact consumption (any trailing bytes); "
+  "C09.enc_accepts: every encoding of the syntactic predicate MD.Enc (any legal width at every place: fix/8/16/32 lengths and counts, bin, ext, fixext, nested containers, within the limits) is "
+  "accepted, for every filter; prefix_classification / enc_prefix_classification / run_prefix_by_consumed: every proper prefix gives IncompleteInput (EmptyInput for the empty input) with the "
+  "whole prefix consumed, for every filter, and a prefix that contains the first object of a sequence returns that object; reserved_code_at / non_string_key_at (and the any-width forms): 0xC1 "
+  "where a value is expected and a non-string byte where a key is expected give InvalidInput at that byte, at any depth; run_prefix_dichotomy: the result of a run depends only on the bytes "
+  "it consumed. The model agrees with deserializeMsgPack on values encoded by an independent encoder with arbitrary legal widths, on all their proper prefixes and on corruptions; the "
+  "implementation's document is checked against the encoded value.",
+  level_note="the value denoted by a non-minimal encoding (as opposed to its acceptance and prefix behaviour) is tied by the correspondence and the independent codec; USE_DOUBLE=0 is modelled as rounding every stored double to binary32",
   suites=lambda tier: [S.MpDeSuite(cfg=DEF), S.MpDeSuite(cfg={"USE_DOUBLE": 0}, n=1200 if tier == "quick" else 60000)],
-  partial=["prefix_incomplete for strings/containers"])
+  partial=["value of non-minimal encodings as a theorem"])
 
-P("C10", namespaces=["C10"], level_text="Theorems C10.accepts_iff / ok_iff_dialect: for every configuration (comments, NaN, Infinity, unicode decoding on or off), nesting limit and byte string, the deserializer model "
+P("C10", module="AJ.Props.C10All", extra=[("AJ.Props.C10", ["C10"]), ("AJ.Props.C10Class", ["C10"])], level_text="Theorems C10.accepts_iff / ok_iff_dialect: for every configuration (comments, NaN, Infinity, unicode decoding on or off), nesting limit and byte string, the deserializer model "
   "returns Ok with value v exactly when the text is `white space/comments, one value of the documented dialect denoting v, then anything` (declarative grammar lean/AJ/Spec/Dialect.lean: single and double "
   "quotes, unquoted keys, lenient numbers, NaN/Infinity when enabled, comments when enabled, raw control bytes in strings); C10.sound and C10.complete are the two directions; "
   "C10.unclosed_refused / unclosed_never_ok: an unclosed string, array or object is never Ok; C10.empty_iff: EmptyInput exactly for inputs that are only white space/comments; C10.disabled_*: the "
-  "corresponding syntax is InvalidInput when its option is off. Classification of the remaining refusals (Incomplete vs Invalid) is tied by a bounded-exhaustive run (all token sequences up to "
+  "corresponding syntax is InvalidInput when its option is off. Classification (C10.classification and its parts): IncompleteInput and EmptyInput are answered only after the whole text up to "
+  "its terminator was read (incomplete_reads_to_the_end) and an incomplete text within the string-length limit has an accepted continuation (incomplete_is_extendable); InvalidInput is caused by "
+  "a byte inside the text (invalid_stops_inside) and is then final for every continuation (invalid_is_final) - except texts that end in a dangling sign or, with comments on, a dangling slash, "
+  "which the code reports as InvalidInput although they can be completed (decidable predicate Dangling; kernel-checked witnesses `-`, `[1,-`, `/`); TooDeep and NoMemory are final; the result "
+  "is determined by the bytes taken (run_local, nul_is_end, never_reads_past_nul); prefix_of_accepted: a proper prefix of an accepted text is Incomplete, Empty (only white space), a shorter "
+  "number, or a Dangling InvalidInput - never anything else. The model is tied by a bounded-exhaustive run (all token sequences up to "
   "length 3/4 over a 33-token alphabet, mutated and random texts, 3 flag configurations) against the model and an independent recognizer of the documented dialect (tools/dialect.py).",
-  level_note="number tokens are specified through the model's own parseNumber (its value semantics are C12's subject); the Incomplete-vs-Invalid split beyond EmptyInput and the disabled options is by correspondence",
+  level_note="number tokens are specified through the model's own parseNumber (its value semantics are C12's subject)",
   suites=lambda tier: [S.JsonAnySuite(cfg=DEF), S.JsonAnySuite(cfg=CFG_ALL, n=6000 if tier == "quick" else 300000), S.JsonAnySuite(cfg=CFG_NOUNI, n=3000 if tier == "quick" else 100000)],
-  partial=["Incomplete-vs-Invalid classification of refused texts"])
+  partial=["finality of InvalidInput for Dangling texts other than a lone sign"])
 
 P("C11", module="AJ.Props.C11All", extra=[("AJ.Props.C11", ["C11"]), ("AJ.Props.C11Full", ["C11"]), ("AJ.Props.C11Mp", ["C11"])],
   level_text="Theorem C11.json_projection_all_inputs: for every configuration, nesting limit, filter and input on which the unfiltered run returns Ok, the filtered run returns Ok, the "
@@ -166,16 +176,18 @@ P("C11", module="AJ.Props.C11All", extra=[("AJ.Props.C11", ["C11"]), ("AJ.Props.
   suites=lambda tier: [S.FilterSuite(cfg=DEF)],
   partial=["memory clause"])
 
-P("C12", level_text="Theorems: every integer literal in [-2^63, 2^64) with any number of leading zeros parses to exactly that integer and nothing else does; integers print digit-exact; "
-  "print/parse round trip over the whole 64-bit range; no literal of any length reaches an out-of-range table index. Floating point, over exact rationals (C12.float_clauses, parse_double_error, "
-  "parse_float_error, huge_value_is_inf, tiny_value_is_zero, many_digits_double, saturated_exponent): for every RFC number literal of at most 99000 digits, a double result is within 1e-13 relative "
-  "(or is the correctly signed infinity above 1e300), a float result is within 1e-6 and never infinite, |v| >= 1e309 gives infinity, |v| < 1e-325 gives a signed zero; C12.tables_correct: the "
-  "powers-of-ten tables regenerated from the source are the correctly rounded powers (positive) / within half an ulp (negative); mul_rel_error, ofNat_rel_error, round_rel_error_int: the softfloat "
-  "steps are correctly rounded. The softfloat model is compared bit for bit with the library, and the library with exact rational arithmetic (literals up to thousands of digits through as<T>() "
-  "on strings, random and boundary floats/doubles).",
-  level_note="not theorems: the band 1e-325 <= |v| < 1e-300 (subnormal results) and the printing-side 1e-9 bound, both covered by the exact-rational oracle on sampled values",
-  suites=lambda tier: [S.NumSuite(cfg=DEF)],
-  partial=["subnormal band of the parser", "print error bound"])
+P("C12", module="AJ.Props.C12All", extra=[("AJ.Props.C12", ["C12"]), ("AJ.Props.C12Print", ["C12"])],
+  level_text="Theorems: every integer literal in [-2^63, 2^64) with any number of leading zeros parses to exactly that integer and nothing else does; integers print digit-exact; "
+  "print/parse round trip over the whole 64-bit range; no literal of any length reaches an out-of-range table index. Floating point, over exact rationals - PARSE (C12.float_clauses, "
+  "parse_double_error, parse_float_error, huge_value_is_inf, tiny_value_is_zero, many_digits_double, saturated_exponent, parse_subnormal_band): for every RFC number literal of at most 99000 "
+  "digits, a double result is within 1e-13 relative (or the correctly signed infinity above 1e300), a float result is within 1e-6 and never infinite, |v| >= 1e309 gives infinity, |v| < 1e-325 "
+  "gives a signed zero, and in the band 1e-325 <= |v| < 1e-300 the result is zero (only below 1e-310) or a double within 2^-1075 + 1e-13*|v|, never above (2+1e-12)*|v|; PRINT "
+  "(print_double_error/_close, print_float_error/_close, print_zero, print_nonfinite): for EVERY finite non-zero binary64 / binary32 value the exact decimal value of the printed literal is "
+  "within 0.51e-9 / 0.51e-6 of max(1,|x|) - half the bound the property states; C12.tables_correct: the powers-of-ten tables regenerated from the source are the correctly rounded powers "
+  "(positive) / within half an ulp (negative). The softfloat model is compared bit for bit with the library, and the library with exact rational arithmetic (literals up to thousands of "
+  "digits through as<T>() on strings, random and boundary floats/doubles).",
+  level_note="the theorems are about the softfloat model; its bit-exact agreement with the compiled code (x86-64 SSE2 double arithmetic) is what the correspondence checks on sampled and boundary values",
+  suites=lambda tier: [S.NumSuite(cfg=DEF)])
 
 P("C13", module="AJ.Props.C13All", extra=[("AJ.Props.C13", ["C13"]), ("AJ.Props.C13Copy", ["C13"])],
   level_text="Theorems for every stored number and each of the eight integral widths: as<T>() is the exact value when it lies in T's range and 0 otherwise, never undefined "
@@ -215,49 +227,66 @@ P("C18", level_text="Theorems for all values: != is the negation of ==, <= is < 
   level_note="known finding: == is asymmetric for objects with repeated keys (reachable through MessagePack)",
   suites=lambda tier: [S.CmpSuite(cfg=DEF)])
 
-P("C04", module="AJ.Props.C04All", extra=[("AJ.Props.C04", ["C04"]), ("AJ.Props.C04Hist", ["C04"])],
+P("C04", module="AJ.Props.C04All", extra=[("AJ.Props.C04", ["C04"]), ("AJ.Props.C04Hist", ["C04"]), ("AJ.Props.C04Rem", ["C04"]), ("AJ.Props.C04Copy", ["C04"])],
   level_text="Theorems about the slot-level document model (total definitions over pools, free list, next-linked chains with head/tail, extension slots, "
   "reference-counted strings) under the invariant WF = ghost layout WFG (chains acyclic, tail = last slot, slots used once, live in the pool) + string table StrOK (reference counts = number of "
   "referring slots): the abstraction to an ordered tree never runs out of fuel; array append refines list append and keeps WF; set of every scalar/string kind (incl. 64-bit extension slots, "
   "copied/linked strings, double narrowing) writes exactly that value and keeps WF; clear of ANY location (scalar, string, nested array/object) nulls exactly that location, releases exactly "
   "the slots of its subtree, drops exactly its string references, with the frame property for every location outside it; member append (appendPair) refines association-list append; "
-  "size/findKey agree with the tree; slot ids handed out are fresh, releases are local. C04.history_refines / history_trace: every history over add-element / clear / store (from any WF "
-  "document, any geometry, any failure oracle) keeps WF and each step produces the value of the list-level machine. The same model is compared after every operation with the real library on "
+  "removeOne_refines / removeMember_refines (+ frames): removal of an array element / object member refines eraseIdx / eraseP of the first match, releases exactly the slots of the removed subtree "
+  "(and the key slot) and leaves every other location unchanged; addMember_refines, getOrAddMember_found / _absent: member lookup-or-insert refines association-list lookup / append, also when the "
+  "allocation fails; size/findKey agree with the tree; slot ids handed out are fresh, releases are local. C04.history_refines2 / history_trace2: every history over add-element / clear / store / "
+  "remove-element / remove-member / member-lookup-or-insert (from any WF document, any geometry, any failure oracle) keeps WF and each step produces the value of the list-level machine. "
+  "copyInto_refines / copyInto_same_doc / copyInto_frame / historyC_refines: a deep copy from another or the same document (overlap allowed: the source is read from a snapshot) yields, when it is "
+  "not flagged overflowed, exactly the source value (doubles re-normalised to float when exact; keys without repetition) in fresh or recycled slots, with WF and the frame property. The same model is compared after every operation with the real library on "
   "generated non-aliasing histories: every observation AND the allocator log, on several pool geometries; the library's observations are also checked against an independent plain "
   "ordered-tree machine.",
-  level_note="not yet theorems: removal, member insertion through the key lookup when the key is absent, deep copy; histories containing those rest on the correspondence; aliasing assignments are excluded",
-  suites=lambda tier: [S.HistSuite(cfg=G["default"]), S.HistSuite(cfg=G["tiny1"], nh=40 if tier == "quick" else 2000), S.HistSuite(cfg=G["id1"], nh=30 if tier == "quick" else 2000)] +
+  level_note="document-level copy-assignment/swap/move (which also exchange allocators) rest on the correspondence; a source object with a repeated key (only reachable through MessagePack input) is copied with the "
+  "repetition collapsed - the copy theorems carry the hypothesis NoDupKeys, see DESIGN 0.3",
+  suites=lambda tier: [S.HistSuite(cfg=G["default"]), S.HistSuite(cfg=G["tiny1"], nh=40 if tier == "quick" else 2000), S.HistSuite(cfg=G["id1"], nh=30 if tier == "quick" else 2000),
+                       S.LimitSuite(cfg=G["id1c10"]), S.HistSuite(cfg=G["nolonglong"], nh=25 if tier == "quick" else 1500), S.CopyEqSuite(cfg=DEF)] +
   ([S.HistSuite(cfg=G[g], nh=1500) for g in ("tiny2", "id1c10", "id1i3", "len1", "len4")] if tier == "thorough" else []),
-  partial=["remove / copy / absent-key insertion refinement"])
+  partial=["document-level copy/swap/move as theorems"])
 
-P("C05", module="AJ.Props.C05All", extra=[("AJ.Props.C05", ["C05"]), ("AJ.Props.C05Doc", ["C05"])],
+P("C05", module="AJ.Props.C05All", extra=[("AJ.Props.C05", ["C05"]), ("AJ.Props.C05Doc", ["C05"]), ("AJ.Props.C05Copy", ["C05"])],
   level_text="Theorems at the slot-pool level for every state reachable under every failure oracle (one-shot positions and fail-from-k): a failed allocation changes no "
   "live slot and keeps the pool invariant, clear() returns every block, and the allocator works again afterwards. At document level (C05.add_element_fail_clean, set_fail_clean, "
   "add_member_fail_clean): when adding an element, storing a value or adding a member fails for lack of memory, the document is flagged overflowed, stays well-formed (WF), denotes exactly "
-  "the same tree as before (so no member exists without key or value and nothing outside the path changed) and, for member insertion, at most two slots stay allocated but unreachable. "
+  "the same tree as before (so no member exists without key or value and nothing outside the path changed) and, for member insertion, at most two slots stay allocated but unreachable; "
+  "copy_fail_safe / copy_flag_iff_incomplete: under ANY failure schedule a deep copy leaves a well-formed document whose value at the target is a partial copy (a sub-sequence of the elements / "
+  "members, each complete, partial or null, every member with its key), everything outside the target unchanged, and it is flagged overflowed exactly when the copy is incomplete. "
   "API histories generated online against the model (so that only usable references are touched) are run under single, fail-from-k and multi-failure schedules on an instrumented allocator: "
   "every observation and allocator log is compared with the slot-level model, and the implementation is checked for crashes (ASan/UBSan), leaks at clear(), misuse of the allocator, "
   "unreported failures and collateral changes; deserialization is run under every single-failure position.",
-  level_note="failure inside deep copy and inside the deserializers rests on the fault-schedule correspondence and its oracles; documents keep their own allocator in these histories (no copy-assignment/swap)",
+  level_note="failure inside the deserializers rests on the fault-schedule correspondence (every single-failure position) and its oracles; documents keep their own allocator in these histories (no copy-assignment/swap)",
   suites=lambda tier: [S.FaultSuite(cfg=G["default"]), S.FaultSuite(cfg=G["tiny1"], nh=120 if tier == "quick" else 3000), S.FaultSuite(cfg=G["tiny2"], nh=80 if tier == "quick" else 3000),
                        S.DeserFaultSuite(cfg=G["default"]), S.DeserFaultSuite(cfg=G["tiny2"], n=300 if tier == "quick" else 20000)] +
   ([S.FaultSuite(cfg=G[g], nh=2000) for g in ("id1", "tiny2", "id1c10")] if tier == "thorough" else []),
-  partial=["failure inside copy / deserializers as a theorem"])
+  partial=["failure inside the deserializers as a theorem"])
 
-P("C06", module="AJ.Props.C19", namespaces=["C06"], level_text="Theorems at the slot-pool level: a released slot is reused before any allocator call, the allocator is called only "
-  "when the free list is empty and the last pool is full or absent, clear() releases exactly one block per pool plus the heap table and nothing else. On the instrumented allocator "
+P("C06", module="AJ.Props.C06All", extra=[("AJ.Props.C19", ["C06"]), ("AJ.Props.C06Doc", ["C06"])],
+  level_text="Theorems at the slot-pool level: a released slot is reused before any allocator call, the allocator is called only "
+  "when the free list is empty and the last pool is full or absent, clear() releases exactly one block per pool plus the heap table and nothing else. At document level (C06Doc): "
+  "free_after_clear / clear_then_add(s)_no_allocator_call - the slots released by clearing a subtree are exactly those handed out by the next insertions, with no allocator call; "
+  "equal_strings_stored_once / new_string_one_block / string_released_with_last_user / clear_last_user_releases_block / clear_one_of_several_keeps_block - equal copied strings share one block "
+  "that is released with its last user; readonly_no_allocator and lookups of existing members/elements change nothing; clearAll_returns_everything - for every history (any failure oracle) the "
+  "blocks outstanding in the allocator log equal pools + string nodes, and clearAll returns all of them (history_good keeps the exact-count invariant). On the instrumented allocator "
   "(ledger of live blocks, call log per document) histories and deserializations are compared call by call with the model; read-only operations must not call the allocator; "
-  "the ledger must be empty after clear(); double release or release through another allocator aborts the harness.",
-  level_note="string-node reference counts are modelled (de-duplication, release at zero) and compared through the allocator log; the deserialization memory bound (one maximum-size string + pool granularity + a linear function of the bytes consumed, total requested and peak held) is checked on the instrumented allocator for sampled and hostile inputs (huge announced lengths/counts, long strings, many tiny elements), not proved",
+  "the ledger must be empty after clear(); double release or release through another allocator aborts the harness; the deserialization memory bound is checked on both deserializers.",
+  level_note="the deserialization memory bound (one maximum-size string + pool granularity + a linear function of the bytes consumed, total requested and peak held) is checked on the instrumented allocator "
+  "for sampled and hostile inputs (huge announced lengths/counts, long strings, many tiny elements), not proved; moved-from/swapped documents are covered by the correspondence",
   suites=lambda tier: [S.HistSuite(cfg=G["default"]), S.HistSuite(cfg=G["tiny1"], nh=40 if tier == "quick" else 2000), S.FaultSuite(cfg=G["default"], nh=60 if tier == "quick" else 2000),
-                       S.MpDeSuite(cfg=DEF, n=600 if tier == "quick" else 50000), S.DeserMemSuite(cfg=DEF), S.LimitSuite(cfg=G["len1"]), S.LimitSuite(cfg=G["id1"])],
-  partial=["C06_dedup and C06_deser_bound as theorems"])
+                       S.MpDeSuite(cfg=DEF, n=600 if tier == "quick" else 50000), S.DeserMemSuite(cfg=DEF), S.LimitSuite(cfg=G["len1"]), S.LimitSuite(cfg=G["id1"]),
+                       S.HistSuite(cfg=G["nolonglong"], nh=40 if tier == "quick" else 2000)],
+  partial=["deserialization memory bound as a theorem"])
 
-P("C19", namespaces=["C19"], level_text="Theorems for every geometry with poolCap >= 1 and initPools >= 1, every operation sequence and failure oracle: slot identifiers never wrap, "
+P("C19", module="AJ.Props.C19All", extra=[("AJ.Props.C19", ["C19"]), ("AJ.Props.C19Str", ["C19"])], level_text="Theorems for every geometry with poolCap >= 1 and initPools >= 1, every operation sequence and failure oracle: slot identifiers never wrap, "
   "never equal NULL_SLOT, never collide with a live slot; at most 2^(8*idBytes)-1 slots; at the limit allocation fails without touching the state; after a release or clear() allocation "
   "works again. (The proof attempt exposed two defects of the pinned tree, both repaired: table growth past maxPools and a last pool that is too large.) The same histories are replayed "
   "under a matrix of geometries and compared with the model, including histories that cross the slot limit with 1-byte ids.",
-  level_note="string-length limits (STRING_LENGTH_SIZE) are covered by the correspondence on the len1/len4 builds, not by a theorem",
+  level_note="C19Str: a failing string copy is clean (string_copy_fails_cleanly, copied/raw_string_set_fails_cleanly), reference counts are bounded by the number of live slots < 2^(8*idBytes) "
+  "(refcount_never_wraps(_history)), slot ids never wrap along histories; the STRING_LENGTH_SIZE limit itself is not in the slot-level model (model_has_no_string_length_limit) and is covered "
+  "by the correspondence on the len1/len4 builds",
   suites=lambda tier: [S.HistSuite(cfg=G["id1c10"], nh=30 if tier == "quick" else 1500), S.HistSuite(cfg=G["id1i3"], nh=30 if tier == "quick" else 1500), S.HistSuite(cfg=G["len1"], nh=25 if tier == "quick" else 1500),
                        S.LimitSuite(cfg=G["id1c10"]), S.LimitSuite(cfg=G["tiny1"]), S.LimitSuite(cfg=G["id1i3"])] +
   ([S.HistSuite(cfg=G[g], nh=1500) for g in ("tiny2", "len4", "id1")] if tier == "thorough" else []))
